@@ -277,3 +277,49 @@ def tags(case):
 def run_for_c05(case, caching, times):
     gots, exp = run(case, caching, times)
     return gots, exp, all_selected(case)
+
+
+def check(c, ctx):
+    """feature-interaction query (eqlmon/ix.py): flatten + nested an()/the() + concatenate + for_all + predicates in one query"""
+    from collections import Counter
+    ctx.cls("cls:feature_interaction_query")
+    for t in tags(c):
+        ctx.cls("cls:ix:" + t)
+    try:
+        gots, exp = run(c, c["caching"], times=2)
+    except Exception as e:
+        import traceback
+        ctx.fail("EXC", f"ix: {type(e).__name__}: {e}\n{traceback.format_exc()[-600:]}")
+        return
+    n_all = sum(len(p["items"]) for p in c["world"]["parents"])
+    if 0 < len(set(exp)) and len(exp) < n_all * (6 if any(uses_d(a) for a in c["atoms"]) else 1):
+        ctx.nontrivial()
+    for n, g in enumerate(gots):
+        same = Counter(g) == Counter(exp) if all_selected(c) else set(g) == set(exp)
+        if not same:
+            kind = ("SET:" if set(g) != set(exp) else "MULTIPLICITY:") + ("missing" if set(exp) - set(g) else "") + ("+extra" if set(g) - set(exp) else "")
+            ctx.fail(kind, {"evaluation_no": n + 1, "query": {k: c[k] for k in ("c0", "c1", "atoms", "sel", "caching")},
+                            "missing": sorted(set(exp) - set(g))[:8], "extra": sorted(set(g) - set(exp))[:8],
+                            "n_expected": len(exp), "n_observed": len(g)})
+            break
+    ctx.sample({"feature_interaction": {k: c[k] for k in ("c0", "c1", "atoms", "sel")}, "expected_rows": len(exp), "observed_rows": len(gots[0])})
+
+
+
+
+FEATURE_TAGS = {
+    "C10": {"forall_subs", "forall_items_an", "forall_subs_vs_d"},
+    "C15": {"d_is_the_e", "e_le_sub_an", "exists_an", "dn_le_an_flat", "p_has_elem", "forall_items_an", "en_in_subquery"},
+    "C16": None,        # every IX query unnests a collection
+    "C17": {"d_in_conc_p", "d_in_conc_esubs", "d_in_conc_psubs"},
+}
+
+
+def gen_case_for(rng, check_id):
+    """an IX case that contains the feature of the given property's check"""
+    want = FEATURE_TAGS.get(check_id)
+    for _ in range(200):
+        c = gen_case(rng)
+        if want is None or (tags(c) | {c["c1"][0]}) & want:
+            return c
+    return c
